@@ -9,7 +9,7 @@ filter, impersonation filter, gateway credential, `WrapRequest`, transport valid
 The specification `KG.Spec.Identity` is written on the RAW client header lines with case-insensitive names.
 
 * `c02_escape_roundtrip`, `c02_escape_legal`, `c02_legal_table_is_token_table`: `headerKeyEscape`.
-* `c02_extra_key_decoded` (the loss), `c02_extra_key_exact`: what a kube-apiserver decodes from an extra's header name.
+* `c02_extra_key_decoded`: a kube-apiserver decodes exactly the key from an extra's header name, for every byte string.
 * `c02_answered_not_forwarded`: a header line the server refuses, an unauthenticated client, a malformed or a denied
   impersonation is answered by the gateway (400 / 401 / 500 / 403) and not forwarded.
 * `c02_forwarded_only_as_expected`: whatever is forwarded is forwarded for the identity the specification names:
@@ -41,16 +41,12 @@ theorem c02_escape_legal (k : Str) :
     have h2 : (hImpExtraPrefix ++ headerKeyEscape k).isEmpty = false := by simp [hImpExtraPrefix]
     simp [validName, List.all_append, h1, h, h2]
 
-/-- **The loss.** A kube-apiserver decodes `unescapeExtraKey(ToLower(name[len(prefix):]))` from the (canonicalised)
-    name an extra key travels under: the key with its ASCII upper-case letters lower-cased, for every byte string. -/
+/-- A kube-apiserver decodes `unescapeExtraKey(ToLower(name[len(prefix):]))` from the (canonicalised) name an extra key
+    travels under: exactly the key, for EVERY byte string (upper-case letters travel %-escaped, so `ToLower` only touches
+    hexadecimal digits and letters that were lower-case already). -/
 theorem c02_extra_key_decoded (k : Str) :
-    unescapeExtraKey (toLower ((canonicalKey (hImpExtraPrefix ++ headerKeyEscape k)).drop hImpExtraPrefix.length)) = toLower k :=
+    unescapeExtraKey (toLower ((canonicalKey (hImpExtraPrefix ++ headerKeyEscape k)).drop hImpExtraPrefix.length)) = k :=
   extra_key_decoded k
-
-/-- … hence exactly the key when it has no upper-case ASCII letter -/
-theorem c02_extra_key_exact (k : Str) (h : k.all (fun c => !isUpper c) = true) :
-    unescapeExtraKey (toLower ((canonicalKey (hImpExtraPrefix ++ headerKeyEscape k)).drop hImpExtraPrefix.length)) = k := by
-  rw [extra_key_decoded, toLower_id_of_noUpper k h]
 
 /-! ## answered by the gateway, not forwarded -/
 
@@ -143,53 +139,45 @@ theorem c02_authorization (token : Str) (raw : List (Str × Str)) (auth : Option
   cases up <;> simp [sendOver_eq, values, canonicalKey_hAuthorization]
 
 /-- **What the upstream is told to act as**, for every forwarded request: the context user with every value as the wire
-    carries it (`carried`) and every extra key lower-cased. -/
+    carries it (`carried`); user, group list and extra keys (arbitrary bytes) are otherwise untouched. -/
 theorem c02_identity_decoded (token : Str) (raw : List (Str × Str)) (auth : Option Identity)
     (az : ImpReq → Decision) (up : Bool) (recv : Headers) (ctx : Identity)
     (h : serve token raw auth az up = .forwarded recv ctx) :
     (decodeIdentity recv).name = carried up ctx.name ∧
     (decodeIdentity recv).groups = ctx.groups.map (carried up) ∧
-    ∀ k, values (decodeIdentity recv).extra k = values (ctx.extra.map (fun e => (toLower e.1, e.2.map (carried up)))) k := by
+    ∀ k, values (decodeIdentity recv).extra k = values (ctx.extra.map (fun e => (e.1, e.2.map (carried up)))) k := by
   obtain ⟨u, h1, _, _, _, I1, I2, I3, rfl⟩ := serve_forwarded token raw auth az up recv ctx h
   obtain ⟨hn, hg, he⟩ := decode_wrapped token up h1 ctx I1 I2 I3
   refine ⟨?_, hg, he⟩
   simp only [decodeIdentity, hget]
   rw [hn]; rfl
 
-/-- **Identity exactness.** If no extra key of the identity to act as contains an upper-case ASCII letter and every
-    value is one the wire carries unchanged (no white space at its ends; on the upgrade path no CR / LF), the upstream
-    reconstructs exactly that identity: the name, the groups in order, and for every key the extra values in order. -/
+/-- **Identity exactness.** If every value of the identity to act as is one the wire carries unchanged (no white space
+    at its ends; on the upgrade path no CR / LF), the upstream reconstructs exactly that identity: the name, the groups in
+    order, and for every extra key — any byte string — the extra values in order. -/
 theorem c02_identity_exact (token : Str) (raw : List (Str × Str)) (auth : Option Identity)
     (az : ImpReq → Decision) (up : Bool) (recv : Headers) (ctx : Identity)
-    (h : serve token raw auth az up = .forwarded recv ctx)
-    (hk : extraKeysLower ctx = true) (hc : valuesCarried up ctx = true) :
+    (h : serve token raw auth az up = .forwarded recv ctx) (hc : valuesCarried up ctx = true) :
     (decodeIdentity recv).name = ctx.name ∧ (decodeIdentity recv).groups = ctx.groups ∧
     ∀ k, values (decodeIdentity recv).extra k = values ctx.extra k := by
   obtain ⟨hn, hg, he⟩ := c02_identity_decoded token raw auth az up recv ctx h
   have h1 := carryIdentity_id up ctx hc
-  have h2 := lowerKeys_id ctx hk
   have h1n : carried up ctx.name = ctx.name := by have := congrArg Identity.name h1; simpa [carryIdentity] using this
   have h1g : ctx.groups.map (carried up) = ctx.groups := by have := congrArg Identity.groups h1; simpa [carryIdentity] using this
   have h1e : ctx.extra.map (fun e => (e.1, e.2.map (carried up))) = ctx.extra := by
     have := congrArg Identity.extra h1; simpa [carryIdentity] using this
-  have h2e : ctx.extra.map (fun e => (toLower e.1, e.2)) = ctx.extra := by
-    have := congrArg Identity.extra h2; simpa [lowerKeys] using this
   refine ⟨by rw [hn, h1n], by rw [hg, h1g], ?_⟩
   intro k
-  rw [he k]
-  have : ctx.extra.map (fun e => (toLower e.1, e.2.map (carried up))) =
-      (ctx.extra.map (fun e => (e.1, e.2.map (carried up)))).map (fun e => (toLower e.1, e.2)) := by
-    simp [List.map_map, Function.comp_def]
-  rw [this, h1e, h2e]
+  rw [he k, h1e]
 
 /-! ## the judge accepts the model -/
 
-/-- For every request, the judge applied to the model's output reports nothing but the two recorded limitations of the
-    wire format (never a forwarded denial, a foreign `Authorization`, a client `Impersonate-*` header, or another identity). -/
+/-- For every request, the judge applied to the model's output reports nothing but the recorded limitation of the wire
+    format (never a forwarded denial, a foreign `Authorization`, a client `Impersonate-*` header, another identity, or a
+    lost extra-key case). -/
 theorem c02_judge_model (token : Str) (raw : List (Str × Str)) (auth : Option Identity)
     (az : ImpReq → Decision) (up : Bool) :
-    ∀ c ∈ judge token up (expectedFor raw auth az) (upstreamOf (serve token raw auth az up)),
-      c = Class.extraKeyCase ∨ c = Class.valueNotCarried := by
+    ∀ c ∈ judge token up (expectedFor raw auth az) (upstreamOf (serve token raw auth az up)), c = Class.valueNotCarried := by
   intro c hc
   cases hs : serve token raw auth az up with
   | forwarded recv ctx =>
@@ -209,45 +197,37 @@ theorem c02_judge_model (token : Str) (raw : List (Str × Str)) (auth : Option I
       rw [k1, k2, hv]
       simp
     obtain ⟨hn, hg, hx⟩ := c02_identity_decoded token raw auth az up recv ctx hs
-    have hI : identityAgree (decodeIdentity recv) (lowerKeys (carryIdentity up ctx)) = true := by
+    have hI : identityAgree (decodeIdentity recv) (carryIdentity up ctx) = true := by
       simp only [identityAgree, Bool.and_eq_true, beq_iff_eq]
-      refine ⟨⟨by simp [lowerKeys, carryIdentity, hn], by simp [lowerKeys, carryIdentity, hg]⟩, ?_⟩
+      refine ⟨⟨by simp [carryIdentity, hn], by simp [carryIdentity, hg]⟩, ?_⟩
       apply multimapAgree_of_values
       intro k
       rw [hx k]
-      simp [lowerKeys, carryIdentity, List.map_map, Function.comp_def]
-    simp only [judgeForward, hA, beq_self_eq_true, if_true, hN, List.nil_append] at hc
+      simp [carryIdentity]
+    simp only [judgeForward, hA, beq_self_eq_true, if_true, hN, List.nil_append, hI] at hc
     split at hc
     · simp at hc
-    · split at hc
-      · simp at hc; exact Or.inr hc
-      · split at hc
-        · simp at hc; exact Or.inl hc
-        · simp at hc
-          rcases hc with rfl | rfl
-          · exact Or.inl rfl
-          · exact Or.inr rfl
+    · simpa using hc
   | badRequest | unauthorized | internalError | forbidden | transportRefused | upstreamRefused =>
     rw [hs] at hc
     simp only [upstreamOf, judge] at hc
     split at hc <;> simp at hc
 
-/-- … and nothing at all when the identity to act as has lower-case extra keys and values the wire carries. -/
+/-- … and nothing at all when the identity to act as has only values the wire carries. -/
 theorem c02_judge_model_exact (token : Str) (raw : List (Str × Str)) (auth : Option Identity)
     (az : ImpReq → Decision) (up : Bool)
-    (hx : ∀ id, expectedFor raw auth az = .forward id → extraKeysLower id = true ∧ valuesCarried up id = true) :
+    (hx : ∀ id, expectedFor raw auth az = .forward id → valuesCarried up id = true) :
     judge token up (expectedFor raw auth az) (upstreamOf (serve token raw auth az up)) = [] := by
   cases hs : serve token raw auth az up with
   | forwarded recv ctx =>
     have he := c02_forwarded_only_as_expected token raw auth az up recv ctx hs
-    obtain ⟨hk, hcv⟩ := hx ctx he
+    have hcv := hx ctx he
     have hall := c02_judge_model token raw auth az up
     simp only [hs, upstreamOf, he, judge, List.flatMap_cons, List.flatMap_nil, List.append_nil] at hall ⊢
-    obtain ⟨hn, hg, hxx⟩ := c02_identity_exact token raw auth az up recv ctx hs hk hcv
+    obtain ⟨hn, hg, hxx⟩ := c02_identity_exact token raw auth az up recv ctx hs hcv
     have hI : identityAgree (decodeIdentity recv) ctx = true := by
       simp only [identityAgree, Bool.and_eq_true, beq_iff_eq]
       exact ⟨⟨hn, hg⟩, multimapAgree_of_values _ _ hxx⟩
-    -- the first two components are empty by the general theorem (they are not one of the two tolerated classes)
     have hA := c02_no_client_identity_header token raw auth az up recv ctx hs hAuthorization (by decide)
     simp only [judgeForward, hA, beq_self_eq_true, if_true, hI, List.nil_append, List.append_nil] at hall ⊢
     split
@@ -337,7 +317,7 @@ example : (match serve exToken exRaw (some exAlice) (fun _ => .allow) false with
 
 /-- the hypotheses of `c02_identity_exact` / `c02_judge_model_exact` hold for it -/
 example : expectedFor exRaw (some exAlice) (fun _ => .allow) = .forward exBob ∧
-    extraKeysLower exBob = true ∧ valuesCarried false exBob = true := by decide +kernel
+    valuesCarried false exBob = true := by decide +kernel
 
 /-- the same request with the group check denied: the specification says 403, the gateway answers 403 -/
 example : serve exToken exRaw (some exAlice) exDenyDev false = .forbidden ∧
@@ -353,18 +333,25 @@ example : (match serve exToken [([73, 77, 80, 69, 82, 83, 79, 78, 65, 84, 69, 45
         values recv [73, 109, 112, 101, 114, 115, 111, 110, 97, 116, 101, 45, 70, 111, 111] = [] ∧ decodeIdentity recv = exAlice)
     | _ => false) = true := by decide +kernel
 
-/-- the recorded limitations are real: an authenticated extra key `Scopes` is decoded as `scopes`, a group ` g` as `g` -/
+/-- an authenticated extra key `Scopes` is decoded as `Scopes` (repaired defect C02-extra-key-case); the recorded
+    limitation is real: a group ` g` is decoded as `g` -/
 example : (match serve exToken [] (some ⟨[97, 108, 105, 99, 101], [[32, 103]], [([83, 99, 111, 112, 101, 115], [[118, 105, 101, 119]])]⟩) (fun _ => .allow) false with
-    | .forwarded recv _ => decide (decodeIdentity recv = ⟨[97, 108, 105, 99, 101], [[103]], [([115, 99, 111, 112, 101, 115], [[118, 105, 101, 119]])]⟩)
+    | .forwarded recv _ => decide (decodeIdentity recv = ⟨[97, 108, 105, 99, 101], [[103]], [([83, 99, 111, 112, 101, 115], [[118, 105, 101, 119]])]⟩)
     | _ => false) = true := by decide +kernel
 
-example : extraKeysLower ⟨[97, 108, 105, 99, 101], [], [([83, 99, 111, 112, 101, 115], [[118, 105, 101, 119]])]⟩ = false ∧
-    valuesCarried false ⟨[97, 108, 105, 99, 101], [[32, 103]], []⟩ = false := by decide +kernel
+/-- a client's `Impersonate-Extra-%41bc` is authorised as `Abc`, travels as `%41bc` again and is decoded as `Abc` -/
+example : (match serve exToken [([73, 109, 112, 101, 114, 115, 111, 110, 97, 116, 101, 45, 85, 115, 101, 114], [98, 111, 98]), ([73, 109, 112, 101, 114, 115, 111, 110, 97, 116, 101, 45, 69, 120, 116, 114, 97, 45, 37, 52, 49, 98, 99], [118])] (some exAlice) (fun _ => .allow) false with
+    | .forwarded recv ctx => decide (ctx.extra = [([65, 98, 99], [[118]])] ∧ (decodeIdentity recv).extra = [([65, 98, 99], [[118]])] ∧
+        values recv [73, 109, 112, 101, 114, 115, 111, 110, 97, 116, 101, 45, 69, 120, 116, 114, 97, 45, 37, 52, 49, 98, 99] = [[118]])
+    | _ => false) = true := by decide +kernel
+
+example : valuesCarried false ⟨[97, 108, 105, 99, 101], [[32, 103]], []⟩ = false := by decide +kernel
 
 /-! ## the full statement, its refutation on this tree, and the partial theorem (AGENT_GUIDE §6)
 
-The two recorded findings (`findings/C02-extra-key-case`, `findings/C02-value-not-carried`) are exactly the distance
-between the property at full strength and what holds of the code. -/
+The recorded finding `findings/C02-value-not-carried` is exactly the distance between the property at full strength and
+what holds of the code (`findings/C02-extra-key-case` was repaired by /repo 0231ee3: extra keys are exact for all byte
+strings now). -/
 
 /-- The property at full strength: whatever is forwarded, the upstream reconstructs EXACTLY the identity to act as,
     for every identity (arbitrary bytes in names, groups, extra keys and values). -/
@@ -374,24 +361,13 @@ def C02FullExactness : Prop :=
     (decodeIdentity recv).name = ctx.name ∧ (decodeIdentity recv).groups = ctx.groups ∧
     ∀ k, values (decodeIdentity recv).extra k = values ctx.extra k
 
-/-- alice with the extra `Scopes = [view]` -/
-def exScopes : Identity := ⟨[97, 108, 105, 99, 101], [], [([83, 99, 111, 112, 101, 115], [[118, 105, 101, 119]])]⟩
 /-- alice in the group `" g"` (leading space) -/
 def exEdge : Identity := ⟨[97, 108, 105, 99, 101], [[32, 103]], []⟩
 
 def recvOf (o : Outcome) : Headers := match o with | .forwarded r _ => r | _ => []
 
-/-- refutation by the witness of `findings/C02-extra-key-case`: the key `Scopes` arrives as `scopes` -/
-theorem c02_full_exactness_false : ¬ C02FullExactness := by
-  intro h
-  have hs : serve exToken [] (some exScopes) (fun _ => .allow) false =
-      .forwarded (recvOf (serve exToken [] (some exScopes) (fun _ => .allow) false)) exScopes := by decide +kernel
-  have := (h _ _ _ _ _ _ _ hs).2.2 [83, 99, 111, 112, 101, 115]
-  revert this
-  decide +kernel
-
 /-- refutation by the witness of `findings/C02-value-not-carried`: the group `" g"` arrives as `"g"` -/
-theorem c02_full_exactness_false_values : ¬ C02FullExactness := by
+theorem c02_full_exactness_false : ¬ C02FullExactness := by
   intro h
   have hs : serve exToken [] (some exEdge) (fun _ => .allow) false =
       .forwarded (recvOf (serve exToken [] (some exEdge) (fun _ => .allow) false)) exEdge := by decide +kernel
@@ -399,13 +375,13 @@ theorem c02_full_exactness_false_values : ¬ C02FullExactness := by
   revert this
   decide +kernel
 
-/-- the partial theorem: the full statement restricted by the two decidable hypotheses (= `c02_identity_exact`) -/
+/-- the partial theorem: the full statement restricted by the decidable hypothesis `valuesCarried` (= `c02_identity_exact`);
+    nothing is assumed about user names, groups or extra KEYS beyond that -/
 theorem c02_full_exactness_partial (token : Str) (raw : List (Str × Str)) (auth : Option Identity)
     (az : ImpReq → Decision) (up : Bool) (recv : Headers) (ctx : Identity)
-    (h : serve token raw auth az up = .forwarded recv ctx)
-    (hk : extraKeysLower ctx = true) (hc : valuesCarried up ctx = true) :
+    (h : serve token raw auth az up = .forwarded recv ctx) (hc : valuesCarried up ctx = true) :
     (decodeIdentity recv).name = ctx.name ∧ (decodeIdentity recv).groups = ctx.groups ∧
     ∀ k, values (decodeIdentity recv).extra k = values ctx.extra k :=
-  c02_identity_exact token raw auth az up recv ctx h hk hc
+  c02_identity_exact token raw auth az up recv ctx h hc
 
 end KG.Props.C02
